@@ -48,6 +48,8 @@ func NewFilter(config FilterConfig, checker Checker) Filter {
 // always considered healthy.
 func (f *filter) Run(addrs stringset.Set) stringset.Set {
 	if len(addrs) == 1 {
+		// Still track membership, so hosts which left are forgotten.
+		f.state.sync(addrs)
 		return addrs.Copy()
 	}
 
